@@ -153,7 +153,10 @@ class SyncedList(SyncedCollection, MutableSequence):
                         and data[i] == self._data[i]
                     ):
                         continue
-                    if _sc_resolver.get_type(self._data[i]) == "SYNCEDCOLLECTION":
+                    if (
+                        data[i] is not None
+                        and _sc_resolver.get_type(self._data[i]) == "SYNCEDCOLLECTION"
+                    ):
                         try:
                             self._data[i]._update(data[i])
                             continue
